@@ -220,3 +220,8 @@ mod tests {
         assert_eq!(out, "AA \nBB\n");
     }
 }
+
+// verification hook: bounded-model-checking harnesses (compiled only by Kani, `--cfg kani`)
+#[cfg(kani)]
+#[path = "/verif/harness/h_wrapping.rs"]
+mod verif;
